@@ -8,10 +8,14 @@
    loop_depth and parse every branch in its own child ctx, [for _ in range(k):] and
    [while x:] increment it).
 
-   [split]     = where parse() puts each top-level statement (setup_body / loop_body)
+   [split]     = where parse() puts each top-level statement (setup_body / loop_body); parse() raises
+                 ValueError for any top-level statement after the column-0 [while True:] block
+                 ([main_last], part of [Emit.transl_ok]), so for an accepted program the main loop is
+                 the last item and [split] never sees anything behind it
    [inject]    = ButtonPoll / LCDTick nodes prepended to loop_body (polls, then ticks,
                  each in Python [sorted] order of the names)
-   [classify]  = which assigned names become C globals / locals of loop()
+   [classify]  = which assigned names become C globals / locals of loop(): every name is a sketch
+                 global, also one first assigned inside [while True:] (it keeps its value between passes)
    [ir_items]  = the node lists of the IR (what the correspondence compares with the
                  real Program dataclasses)
    No proofs in this file. *)
@@ -170,7 +174,10 @@ Definition loop_list (its : list item) : list lstmt :=
   inject (poll_names its) (tick_names its) (map LUser (snd (split its))).
 
 (* ------------------------------------------------------------------ variables: global or local of loop() *)
-(* one ctx for the whole file: var_declared grows in textual order, main-loop bodies included *)
+(* one ctx for the whole file: var_declared grows in textual order, main-loop bodies included.
+   _handle_assignment_ast / _make_promotion_decls: a name first assigned at setup depth 0 OR at the body level of the
+   main loop (directly, or hoisted to that level out of a nested block) goes to ctx["globals"]; nothing is a local of
+   loop() any more (second component: always []) *)
 Fixpoint classify (declared : list name) (its : list item) : list name * list name :=
   match its with
   | [] => ([], [])
@@ -179,7 +186,7 @@ Fixpoint classify (declared : list name) (its : list item) : list name * list na
       let (g, l) := classify (declared ++ nn) r in (nn ++ g, l)
   | IMainLoop b :: r =>
       let nn := fresh declared (flat_map assigned_stmt b) in
-      let (g, l) := classify (declared ++ nn) r in (g, nn ++ l)
+      let (g, l) := classify (declared ++ nn) r in (nn ++ g, l)
   | IFunc _ _ :: r => classify declared r
   end.
 
@@ -211,11 +218,11 @@ Inductive irn :=
 | NWhile (x : name) (b : list irn) | NTry (b h : list irn)
 | NPoll (b : name) | NTick (l : name).
 
-(* declarations promoted out of a block ([_make_promotion_decls]): globals at setup depth 0
-   (no node), [VarDecl] nodes at the top of the main loop, and - after the enclosing block's
-   own rewrite - plain assignments of the default value anywhere deeper *)
-Definition prom (top in_setup : bool) (nn : list name) : list irn :=
-  if top && in_setup then [] else if top then map NVarDecl nn else map NVarAssign nn.
+(* declarations promoted out of a block ([_make_promotion_decls]): globals at setup depth 0 and at the body level of
+   the main loop (no node); anywhere deeper a [VarDecl(hoisted=True)] node that the enclosing block's own rewrite
+   ([_rewrite_nodes] / the if-handler's [_rewrite]) DROPS when it hoists the name one level further out - so no node
+   is left at any depth *)
+Definition prom (top in_setup : bool) (nn : list name) : list irn := [].
 
 Fixpoint ir_stmt (top in_setup : bool) (declared : list name) (s : stmt) : list irn :=
   let blk := fix go (d : list name) (l : list stmt) : list irn :=
@@ -229,7 +236,8 @@ Fixpoint ir_stmt (top in_setup : bool) (declared : list name) (s : stmt) : list 
   | SSet x e =>
       if mem_name x declared then [NVarAssign x]
       else if top && in_setup then match e with RConst _ => [] | RAdd _ _ => [NVarAssign x] end
-      else if top then [NVarDecl x] else [NVarAssign x]
+      else [NVarAssign x]      (* main-loop body level: global with the default initialiser + the assignment in place;
+                                  deeper: the [VarDecl] the enclosing block rewrites to an assignment *)
   | SShow _ x => [NShow x]
   | SAnim l => [NAnim l]
   | SBreak => [NBreak]
